@@ -127,13 +127,13 @@ ADDENDA = {
  "C03": " Added: a freshly committed ART1 category is a fixed point of its founding pattern, both halves of the weight (ART1_new.v; true only since /repo 4a12d55, the previous divisor L-1+dim kept as art1_new_before_fix_refuted); the Ellipsoid model follows the repaired major-axis rule (/repo 45d03fa). Oracle: relations the published equations impose on every trained weight (ART1 bottom-up rule, founding pattern is a fixed point, Ellipsoid axis zero exactly for one-point categories, unit otherwise, never changed afterwards); audit probes (QuadraticNeuronART centres, shrink ratios above 1/2).",
  "C17": " Added (axiom-free, Bartmap_fit.v): BARTMAP.fit as a whole - both data sets validated first, the column module fitted alone on the transposed matrix, the row module fitted with the row veto (an oracle: a function of the row number, universally quantified) - ends in a checkerboard: shapes, widths, every cell in exactly one bicluster, membership = labels, with NO hypothesis on the labels (they are what the two fits produce; C05's invariant supplies the ranges). Correspondence: whole fit calls on square grid matrices against the model, the implementation's own veto verdicts as oracle. BARTMAP's row veto over a DualVigilanceART column module (repaired /repo 30c6fc7; the ValueError is filed under the recorded empty-cluster finding only when a cluster really is empty); audit probes (constant rows / columns, pruning TopoART as column module).",
  "C16": " Added (Falcon_ep.v): whole calculate_SARSA calls for episodes of every length >= 1 (one target per kept row, every target a valid reward-channel input, a one-step episode trains on its own reward row or the complement-coded single_sample_reward), the untrained target for every td_alpha (clip(alpha r)), and the greedy action 'minimal on request'. Correspondence for whole calls incl. one-step episodes; default action space.",
- "C15": " Oracle: CVIART fits of 1-3 epochs, every step judged against the labelling before that step, exceptions on valid data are failures (two defects repaired: CVI_match on labellings without an index, iCVI_CH on the caller's array / dtype); add/switch streams as unsigned / boolean / float32 rows and through one re-used buffer. Added (axiom-free, CVI_gate.v): the CVIART gate as repaired - a permitted assignment strictly improves the index whenever both labellings have one, an assignment that does not is refused, a verdict always exists (no index for < 2 or n distinct labels: permitted); correspondence of every recorded CVI_match call (corr/RunGate.v, scikit-learn's index values as oracle).",
+ "C15": " Oracle: CVIART fits of 1-3 epochs, every step judged against the labelling before that step, exceptions on valid data are failures (two defects repaired: CVI_match on labellings without an index, iCVI_CH on the caller's array / dtype); add/switch streams as unsigned / boolean / float32 rows and through one re-used buffer. Added (axiom-free, CVI_gate.v): the CVIART gate as repaired - a permitted assignment strictly improves the index whenever both labellings have one, an assignment that does not is refused, a verdict always exists (no index for < 2 or n distinct labels: permitted); correspondence of every recorded CVI_match call (corr/RunGate.v, scikit-learn's index values as oracle). Added (ICVI_remove.v, ICVI_remove_inv.v): remove_sample + update preserves the structural invariant, so the tracked value is the batch index of the data that remain (true since /repo 16fa704; the old sign kept as remove_mean_before_fix_refuted); correspondence of add / remove sequences (corr/RunICVIrm.v). The CVIART gate as finally repaired (99d1851): an assignment that would turn a defined index into an undefined one is refused (C15_cviart_gate_refuses_losing_the_index; the lenient intermediate version kept as a counter-example).",
  "C12": " Oracle: SMART / DeepARTMAP over every elementary module class as level model, 2..4 levels (Bayesian: decreasing ladder). Added (axiom-free, Deep_tree.v): along the WHOLE chain of levels the category counts never decrease, and sharing a category at any finer level implies sharing one at EVERY coarser level.",
  "C09": " Oracle: the public map_a2b on vectors and single labels. Added (axiom-free, SAM_reach.v): for every state reachable by any history of fit / partial_fit calls the stored A-side labels map to the supplied targets and a prediction is a seen class; between two fits an A-side category keeps its class for the whole history (the map only grows).",
  "C01": " Oracle: the search as SimpleARTMAP drives it (its own reset function) against the specification scan, all eight modules.",
  "C20": " Added (axiom-free, VAT_prim.v): Prim's rule along the WHOLE returned order (every sample after the first is an unvisited sample closest to the samples before it - by induction over the loop with its prefix/permutation invariant), and symmetry / zero diagonal of the returned matrix for such input.",
  "C04": " Added: whole-call totality for two compound estimators, TopoART and DualVigilanceART over Fuzzy ART with alpha > 0 (two-winner search, both updates, pruning rounds with re-prediction; the category-to-cluster map is total by the map invariant). Oracle: every boundary value of every hyper-parameter that validate_params accepts must train and predict (found and repaired: tau=0, r_hat<=0, sigma_init<=0, L=inf, singular cov_init); audit probes.",
- "C05": " Added (axiom-free): the same invariant for the A side of SimpleARTMAP / ARTMAP - established by a one-epoch fit, preserved by every partial_fit, together with 'one stored target per A-side label' (SAM_book.v). Oracle: a label must be usable as an index (integer dtype). Third audit: CVIART over DualVigilanceART (clusters = distinct map values), refused calls (NotImplementedError) must leave the book-keeping as it was, class labels that are not small integers arriving in the narrowest dtype of each batch (three defects repaired).",
+ "C05": " Added (axiom-free): the same invariant for the A side of SimpleARTMAP / ARTMAP - established by a one-epoch fit, preserved by every partial_fit, together with 'one stored target per A-side label' (SAM_book.v). Oracle: a label must be usable as an index (integer dtype). Third audit: CVIART over DualVigilanceART (clusters = distinct map values), refused calls (NotImplementedError) must leave the book-keeping as it was, class labels that are not small integers arriving in the narrowest dtype of each batch (three defects repaired). Added (axiom-free, BaseArt_epochs.v): fit with several epochs - the book-keeping is about the whole history L of assignments (categories in order of first use in L, counters = histogram of L, sample_counter_ = |L| = epochs * n, labels_ = the last epoch's part of L), hence every label indexes an existing category; correspondence of 2-3 epoch fits (corr/RunBaseN.v).",
  "C07": " Added (axiom-free): every training call of SimpleARTMAP, DualVigilanceART and TopoART leaves the wrapped module's vigilance as configured, for every kernel, mode, epsilon and reset function, through every exit path and pruning round (Wrap_rho.v).",
  "C06": " Added (axiom-free): the same batching theorems for SimpleARTMAP (whole state incl. the category-to-class map and the stored targets; first call and later calls; any partition into batches; fit = any batching on a fresh estimator) for ARTMAP (B side + A side on the batch's B labels) and for the DeepARTMAP / SMART layer chain (SAM_hist.v, Deep_hist.v). classes_ is part of the compared state (a defect repaired: partial_fit never wrote it).",
  "C08": " Added (axiom-free, Wrap_pred.v): DualVigilanceART and SimpleARTMAP predict row by row, each row gets the map image of the base module's oldest arg-max category, and a DualVigilanceART prediction is < n_clusters. The purity snapshot compares the whole __dict__ (remembered widths included; CVIART.predict creating dim_ was a genuine defect, repaired).",
